@@ -31,6 +31,7 @@ out = ['## 10. Detection: which checks catch which deliberately broken trees', '
        '### Seeded changes (independent)', '',
        '| id | property | what the change needs to manifest | caught by | note |', '|---|---|---|---|---|']
 UNCAUGHT = {
+    'C05-c2': 'caught by C04 (exit 1, segment-sum): a zero-length antimeridian segment is counted twice; C05 does not judge the shares of a zero-length segment (0/0 is undefined), so this is a conservation violation, not an attribution one',
     'C05-b3': 'adjudicated: not a violation of the property as written (a point exactly on a grid line lies in the closure of both neighbouring cells; either is accepted, section 5). `VERIF_C05_TOUCH=lower` pins the documented convention and then reports it.',
     'C10-a1': 'patch written against an earlier /repo HEAD no longer applies after later fix commits; it was caught (exit 1) at the HEAD it was written for (see meta.json)',
 }
